@@ -316,17 +316,24 @@ var c03PrepCache = map[string]*c03Prep{}
 
 func c03Decls(igs string) []*world.Decl {
 	src := world.SrcRef{Name: "src1", Start: 1}
+	var ds []*world.Decl
 	switch igs {
 	case "L1", "T1", "R1", "TR1":
-		return []*world.Decl{shape(igs, "ig1", "t1", src)}
+		ds = []*world.Decl{shape(igs, "ig1", "t1", src)}
 	case "T1+TR1": // transaction indexing next to trace indexing (both read the client's block cache)
-		return []*world.Decl{shape("T1", "ig1", "t1", src), shape("TR1", "ig2", "t2", src)}
+		ds = []*world.Decl{shape("T1", "ig1", "t1", src), shape("TR1", "ig2", "t2", src)}
 	case "L1+T1":
-		return []*world.Decl{shape("L1", "ig1", "t1", src), shape("T1", "ig2", "t2", src)}
+		ds = []*world.Decl{shape("L1", "ig1", "t1", src), shape("T1", "ig2", "t2", src)}
 	case "T1+R1": // both read the client's block cache
-		return []*world.Decl{shape("T1", "ig1", "t1", src), shape("R1", "ig2", "t2", src)}
+		ds = []*world.Decl{shape("T1", "ig1", "t1", src), shape("R1", "ig2", "t2", src)}
+	default:
+		panic("igs " + igs)
 	}
-	panic("igs " + igs)
+	// content-derived names (ig1_…, ig2_… keep the task order): see uniqueName
+	for i, d := range ds {
+		uniqueName(d, fmt.Sprintf("ig%d", i+1))
+	}
+	return ds
 }
 
 func c03Prepare(j c03Job) (*c03Prep, error) {
@@ -394,6 +401,7 @@ type c03Result struct {
 	midStep  bool
 	versions map[int]int // chain version -> requests served
 	steps    []string    // step log (trace mode)
+	lagged   int         // node-lag answers injected
 }
 
 func c03Exec(j c03Job, p *c03Prep, ch vrt.Chooser, states *vrt.StateSet, trace bool) (res c03Result) {
@@ -451,6 +459,37 @@ func c03Exec(j c03Job, p *c03Prep, ch vrt.Chooser, states *vrt.StateSet, trace b
 		w.V.WaitIdle()
 		g.open = true
 		phase2Seq = len(w.Net.Exchanges())
+		// environment answer "node lag" (at most once per execution, an environment deviation): the node already
+		// announces its head but still answers null for that block inside a batch of block/header requests
+		lagLeft := 1
+		w.OnExchange = func(ex *simeth.Exchange) {
+			if lagLeft == 0 || !ex.Batch || len(ex.Calls) == 0 {
+				return
+			}
+			for _, c := range ex.Calls {
+				if c.Method != "eth_getBlockByNumber" || len(c.Params) == 0 {
+					return
+				}
+			}
+			tag, _ := ex.Calls[len(ex.Calls)-1].Params[0].(string)
+			head := w.Node("node1").Chain().Head().Num
+			if tag != fmt.Sprintf("0x%x", head) {
+				return
+			}
+			if w.V.ChooseEnv(2, vrt.KEnv, "node-lag") != 1 {
+				return
+			}
+			lagLeft--
+			res.lagged++
+			ex.Mutate = func(resp any) any {
+				if arr, ok := resp.([]any); ok && len(arr) > 0 {
+					if m, ok := arr[len(arr)-1].(map[string]any); ok {
+						m["result"] = nil
+					}
+				}
+				return resp
+			}
+		}
 
 		// ---- frame condition on every commit
 		reorgs := 0
@@ -640,7 +679,8 @@ func c03Exec(j c03Job, p *c03Prep, ch vrt.Chooser, states *vrt.StateSet, trace b
 		})
 		env.OnlyAt = onlyAtIO
 		w.V.Join(append(threads, env)...)
-		g.open = false
+		// (the chooser stays open: while the tasks are drained only the main thread runs, the remaining choices are
+		// environment answers)
 		if res.vio != nil || w.V.Closing() {
 			return
 		}
@@ -818,6 +858,7 @@ func c03Bounds(thorough bool, j c03Job) explore.Bounds {
 	if j.Deep {
 		b[0], b[vrt.KPreempt] = 2, 2
 	}
+	b[vrt.KEnv] = 1 // one node-lag answer per execution (counts as a deviation)
 	if j.Conc > 1 && j.B0 == 1 {
 		b[vrt.KOrder] = 1 // both orders of the two partitions of a step (jobs with index batch 1; the others keep the spawn order)
 	}
@@ -903,6 +944,7 @@ func c03Run(c *fw.Ctx) {
 			if res.midStep {
 				c.Count("reorg_landed_inside_a_step", 1)
 			}
+			c.Count("node_lag_answers", int64(res.lagged))
 			for v, n := range res.versions {
 				c.Count(fmt.Sprintf("requests_served_by_chain_v%d", v), int64(n))
 			}
